@@ -29,12 +29,16 @@ type scanner struct {
 // scanPartial counts the conversions whose operands ended in a partly filled frame.
 var scanPartial int64
 
+// scanShortDst counts the extra conversions into a destination shorter than the source.
+var scanShortDst int64
+
 // scanSameParent counts the scanners whose two operands are windows of one buffer.
 var scanSameParent int64
 
 func flushScanObs(c *core.Ctx) {
 	c.Obs("conversions_on_operands_ending_in_a_partial_frame", atomic.SwapInt64(&scanPartial, 0))
 	c.Obs("same_type_scans_between_two_windows_of_one_buffer", atomic.SwapInt64(&scanSameParent, 0))
+	c.Obs("conversions_into_a_shorter_destination_with_spare_capacity", atomic.SwapInt64(&scanShortDst, 0))
 }
 
 const chunkN = 1 << 14
@@ -120,6 +124,19 @@ func (s *scanner) conv(in []uint64) []uint64 {
 	}
 	s.cv.S.Fill(src, in)
 	srcLen, dstLen := src.Len(), dst.Len()
+	if fr := dst.Length(); s.calls%8 == 3 && n%s.ch == 0 && fr >= 2 && s.panicked == "" {
+		// first into a destination SHORTER than the source with spare capacity
+		// behind it: neither operand changes its length (the full conversion
+		// below then overwrites what this one wrote)
+		short := dst.Slice(0, fr/2)
+		sl := short.Len()
+		if p, msg := core.Guard(func() { s.cv.Call(src, short) }); p {
+			s.panicked = msg
+		} else if short.Len() != sl || src.Len() != srcLen {
+			s.panicked = fmt.Sprintf("(no panic, but) the conversion into a shorter destination with spare capacity changed the length of its operands: source %d -> %d samples, destination %d -> %d samples", srcLen, src.Len(), sl, short.Len())
+		}
+		atomic.AddInt64(&scanShortDst, 1)
+	}
 	if p, msg := core.Guard(func() { s.cv.Call(src, dst) }); p && s.panicked == "" {
 		s.panicked = msg
 	}
